@@ -40,6 +40,7 @@ def design_checks(ctx):
         ("leak-super", "leakSuper", ["PostInv"], 0, "PostInv", quick, 4),
         ("no-hole-boundary", "noHoleBoundary", ["PostInv"], 0, "PostInv", quick, 4),
         ("keep-bad", "keepBad", ["PostInv"], 0, "PostInv", quick, 4),
+        ("shared-flags-capacity", "sharedCap", ["PostInv"], 0, "PostInv", quick, 4),
         ("pinned-margin-small-scale", "code", ["PostInv"], 40, "PostInv", quick, 4),
     ]
     if quick:
